@@ -1,4 +1,5 @@
 import Cose.Msg.Layout
+import Cose.Cbor.Raw
 import Cose.Go.Labels
 import Cose.Gen.Iana
 /-!
@@ -342,11 +343,40 @@ structure Msg where
   mm : Option Wire
 deriving Repr
 
+/-- `Recipient.UnmarshalCBOR` dispatches on the first byte of the raw item: only `0x83` and `0x84`
+    (shortest-form array heads, no tag) are recipients; nested ones go through the same function. -/
+def recipFirstBytesOk (raw : Bytes) : Bool :=
+  match raw with
+  | 0x83 :: _ => true
+  | 0x84 :: _ =>
+    (match rawArrayElems raw with
+     | some [_, _, _, subs] =>
+       (match rawArrayElems subs with
+        | some l => l.all (fun s => match s with | 0x83 :: _ => true | 0x84 :: _ => true | _ => false)
+        | none => true)
+     | _ => true)
+  | _ => false
+
+/-- the recipients member (last element of the wire array of Mac / Encrypt) passes the first-byte dispatch -/
+def recipientsRawOk (k : Kind) (data : Bytes) : Bool :=
+  if k == .mac || k == .encrypt then
+    match rawArrayElems data with
+    | some elems =>
+      (match elems.getLast? with
+       | some last =>
+         (match rawArrayElems last with
+          | some rs => rs.all recipFirstBytesOk
+          | none => true)
+       | none => true)
+    | none => true
+  else true
+
 /-- `UnmarshalCBOR` of a message of kind `k` with payload type `mode` -/
 def unmarshal (k : Kind) (mode : PMode) (data : Bytes) : Dec Msg :=
   match decodeAll (applyStrip data (stripSteps k)) with
   | none => .err
   | some c =>
+    if !recipientsRawOk k (applyStrip data (stripSteps k)) then .err else
     match wireOfCbor k c with
     | .err => .err
     | .unmodelled => .unmodelled
